@@ -274,9 +274,9 @@ class Ctx:
         rc, out, err = sh(["lake", "env", "lean", f], cwd=LEAN, timeout=900)
         res = {}
         text = out + err
-        for m in re.finditer(r"'([^']+)' depends on axioms: \[([^\]]*)\]", text, re.S):
+        for m in re.finditer(r"'(\S+)' depends on axioms: \[([^\]]*)\]", text, re.S):
             res[m.group(1)] = [a.strip() for a in m.group(2).replace("\n", " ").split(",") if a.strip()]
-        for m in re.finditer(r"'([^']+)' does not depend on any axioms", text):
+        for m in re.finditer(r"'(\S+)' does not depend on any axioms", text):
             res[m.group(1)] = []
         return res
 
